@@ -637,7 +637,8 @@ def run(ctx):
                 "crossed, lon/lat source, lon/lat target, geostationary full disc with space pixels, 20 m fan-shaped swath on a degree grid, "
                 "rotated / sheared / jittered / bent swaths in 8 orientations, invalid lons, few neighbours, small radius, reduce_data, integer "
                 "imagery) x constant / affine / random fields, 2-D and 3-D, numpy class, legacy functions and xarray class with several data "
-                "chunkings and PYTROLL_CHUNK_SIZE in {default, 4, 7, 4096}; a repeated call on the same resampler object. "
+                "chunkings and PYTROLL_CHUNK_SIZE in {default, 4, 7, 4096}; a repeated call on the same resampler object; the lazy xarray "
+                "results of several equally named / unnamed inputs evaluated in one dask.compute vs. alone. "
                 "A case is NON-TRIVIAL when it reaches the interesting branch: a non-NaN (t, s) for kernels, a non-NaN result for scalar "
                 "kernels, at least one found corner, a target with an invalid pixel for scattering, at least one produced pixel for a "
                 "resampler case; every look-up / clip / xarray case counts. DISTINCT = distinct canonical inputs (float.hex of all arguments, "
@@ -1129,6 +1130,18 @@ def check_xarray(ctx, rcases, robs, xcases, xobs, envs):
                 bad = [i for i, v in enumerate(fields["const"]) if not isnan(v) and abs(v - c["const"]) > 8 * 2.0 ** -53 * abs(c["const"])]
                 if bad:
                     ctx.add_failure("C06.constant", "xarray: constant field %r resampled to %r at pixel %d" % (c["const"], fields["const"][bad[0]], bad[0]), dict(rpx, field="const"))
+                # lazy results evaluated together in one dask.compute equal the stand-alone evaluation of each
+                for jk in [k_ for k_ in fields if k_.startswith("joint[")]:
+                    v = fields.pop(jk)
+                    base = fields[jk.split(":", 1)[1]]
+                    bad = [i for i, (a, bb) in enumerate(zip(v, base)) if not same(a, bb)]
+                    ctx.count("xarray:joint_compute")
+                    if len(v) != len(base) or bad:
+                        ctx.add_failure("C06.xarray_joint_compute", "%s: %s field resampled lazily with one XArrayBilinearResampler and evaluated together with "
+                                        "the other fields in ONE dask.compute (inputs named %s): %r at pixel %d, evaluated alone %r (%d of %d pixels differ; "
+                                        "data chunks %s, PYTROLL_CHUNK_SIZE=%s)" % (
+                                            c["template"], jk.split(":", 1)[1], jk[6:jk.index("]")], v[bad[0]] if bad else None, bad[0] if bad else -1,
+                                            base[bad[0]] if bad else None, len(bad), len(base), chunks, env), dict(rpx, field=jk))
                 reuse = fields.pop("reuse:affine", None)
                 if reuse is not None and not all(same(a, bb) for a, bb in zip(reuse, fields["affine"])):
                     ctx.add_failure("C06.history.xarray_reuse", "%s: the same XArrayBilinearResampler object used again (2-D after 3-D data) gives another "
